@@ -198,6 +198,7 @@ def run_foreign(case, ctx, cache={}):
     except Exception as e:
         ctx.notes['foreign_case_exception:%s:%s' % (fpid, type(e).__name__)] += 1
     ctx.notes['foreign_events_judged:%s' % fpid] += ctx.evaluations - before
+    ctx.notes['foreign_cases'] += 1
 
 
 def run_repo_tests(case, ctx):
@@ -531,6 +532,8 @@ def run_check(pid, tier, seed, jobs=None, write_evidence=True):
                 'exhaustive_subspace': getattr(prop, 'EXHAUSTIVE', {}).get(tier, None),
                 'element_checks': int(elements),
                 'cases': int(cases),
+                'cases_borrowed_from_other_properties_workloads': int(notes.get('foreign_cases', 0)),
+                'events_judged_in_borrowed_cases': int(sum(v for k, v in notes.items() if k.startswith('foreign_events_judged:'))),
                 'cases_cut_by_budget': int(truncated),
                 'shards': nshards,
                 'wrapper_events': dict(wrapper),
